@@ -10,10 +10,16 @@ RECURSIVE SortCells(_)
 SortCells(S) == IF S = {} THEN <<>>
                 ELSE LET m == CHOOSE c \in S : \A o \in S : c[1] < o[1] \/ (c[1] = o[1] /\ c[2] <= o[2])
                      IN  <<m>> \o SortCells(S \ {m})
+SrcOfCells(q) == [t \in 1..Len(q) |-> <<q[t][1] + 1, q[t][2] + 1>>]
 Subsets(ni, nx) ==
     LET Cells == (0..(ni - 1)) \X (0..(nx - 1))
-    IN  SetToSeq({SortCells(S) : S \in {S \in SUBSET Cells : S # Cells /\ (\A i \in 0..(ni - 1) : \E c \in S : c[1] = i)
-                                                              /\ (\A x \in 0..(nx - 1) : \E c \in S : c[2] = x)}})
+        Q == SetToSeq({SortCells(S) : S \in {S \in SUBSET Cells : S # Cells /\ (\A i \in 0..(ni - 1) : \E c \in S : c[1] = i)
+                                                                 /\ (\A x \in 0..(nx - 1) : \E c \in S : c[2] = x)}})
+    IN  \* confusable: segyio's inference accepts the trace count; ends: even the first/last trace of every inferred line agree
+        [k \in 1..Len(Q) |-> [cells |-> Q[k], confusable |-> SegyioInfers(SrcOfCells(Q[k])),
+                               ends |-> SegyioInfers(SrcOfCells(Q[k])) /\ \A t \in 1..Len(Q[k]) :
+                                           LET n1 == LeadRun(SrcOfCells(Q[k])) s == SrcOfCells(Q[k])
+                                           IN  ((t - 1) % n1 \in {0, n1 - 1}) => s[t] = <<s[((t - 1) \div n1) * n1 + 1][1], s[((t - 1) % n1) + 1][2]>>]]
 OutIrr(src) ==
     LET H == IrregularHeader(src)
         P == Placed(src)
